@@ -1,25 +1,87 @@
-/- Driver for `kind = "c13:…"` cases: runs the model `Askar.Sign` over the toy instance `Toy.schemes`.
+/- Driver for `kind = "c13:…"` cases.
 
-   case = {"keys": [keyspec…], "ops": [op…]}
-   keyspec = {"alg", "src": "secret"|"seed"|"generate"|"jwk"|"public", "secret": bool?, "fam": n?}      (base key, family = own index unless "fam")
-           | {"src": "public_of"|"jwk_public_of"|"jwk_secret_of"|"secret_of", "of": i}                  (re-import of key i)
+   Two layers.
+   (1) DISPATCH: the model `Askar.Sign` (askar's own code: type-string parser, `AnyKey` dispatch, missing-secret and length branches),
+       run over the toy instance `Toy.schemes` — this decides, per operation, ok / error kind / `false` for a wrong length.
+   (2) VALUES: wherever (1) reaches the external scheme, the value is computed by the executable specifications
+       `Crypto/Ed25519.lean` (RFC 8032; verification = `verifyStrict`, the form `ed25519-dalek` `verify_strict` implements) and
+       `Crypto/Ecdsa.lean` (SEC 1 + RFC 6979; secp256k1 with the `k256` crate's low-S rule).  `Props/C13.verify_is_scheme_verdict`
+       and `sign_value` are what licenses the substitution: askar adds nothing to and removes nothing from the scheme's values.
+
+   case = {"keys": [keyspec…], "ops": [op…], "km"?: [{"sk": hex|null, "pk": hex|null}…], "spec"?: true}
+   keyspec = {"alg", "src": "secret"|"seed"|"generate"|"jwk"|"public", "data"?: hex, "secret": bool?, "fam": n?}   (base key)
+           | {"src": "public_of"|"jwk_public_of"|"jwk_secret_of"|"secret_of", "of": i}                              (re-import of key i)
+   "km" = the key material the executor observed (`to_secret_bytes` / `to_public_bytes` of each key, handed over through
+          `model_input`): needed for keys whose secret is not in the case (generate, seed, JWK).  For "secret" / "public" keys the
+          case's own `data` is used, not "km".
    op = {"op": "sign", "key": i, "msg": hex, "t": null|string}
       | {"op": "verify", "key": j, "msg": hex, "t": null|string, "sig": {"raw": hex} | {"by": i, "msg": hex, "t": null|string, "mut": M}}
    M = null | {"flip": bit} | {"trunc": n} | {"extend": hex} | "neg_s" | "s_plus_n"
-   output = one entry per op: sign ↦ {"ok": length} | {"err": kind};  verify ↦ true | false | {"err": kind} | {"sigerr": kind}.
-   The toy key of family f has secret bytes "fam-f"; what is compared is the dispatch outcome, not signature bytes. -/
+   output = one entry per op:
+     sign   ↦ {"ok": length, "sig": hex, "pub": hex} | {"err": kind}      "sig" = the specification's signature of the message under the
+              key's secret bytes AS THE PINNED CRATES COMPUTE IT (ECDSA nonce seeded with the unreduced digest, see Ecdsa.lean);
+              "pub" = the specification's public key of those secret bytes; with "spec": true also "rfc" = the value RFC 6979 /
+              RFC 8032 fix (differs from "sig" only for ECDSA when H(m) ≥ n)
+     verify ↦ true | false | {"err": kind} | {"sigerr": kind}             the specification's verdict (strict Ed25519 / ECDSA)
+   kind "c13:selftest" ↦ the specifications' own tests against the RFC vectors. -/
 import Driver.Common
 import AskarModel.Model.Sign
+import AskarModel.Crypto.Ed25519
+import AskarModel.Crypto.Ecdsa
+import Std.Data.HashMap
 
-open Lean Askar Askar.Sign
+open Lean Askar Askar.Sign Askar.Crypto
 
 namespace Driver.C13
 
 def algOfName (s : String) : Option KeyAlg := KeyAlg.all.find? fun a => a.name == s
 
+/-! ### the specifications, per algorithm -/
+
+def suiteOf : SigAlg → Option Ecdsa.Suite
+  | .ed25519 => none
+  | .p256 => some Ecdsa.p256
+  | .p384 => some Ecdsa.p384
+  | .k256 => some Ecdsa.k256
+
+/-- `rfc = true`: RFC 6979 as written; `false`: as `ecdsa` 0.16.9 seeds the nonce (identical for Ed25519) -/
+def specSign (a : SigAlg) (rfc : Bool) (sk msg : Bytes) : Option Bytes :=
+  match suiteOf a with
+  | none => if sk.length = 32 then some (Ed25519.sign sk msg) else none
+  | some S => Ecdsa.sign S rfc sk msg
+
+def specPub (a : SigAlg) (sk : Bytes) : Option Bytes :=
+  match suiteOf a with
+  | none => if sk.length = 32 then some (Ed25519.publicKey sk) else none
+  | some S => Ecdsa.publicKey S sk
+
+/-- group order (n − s, s + n mutations) -/
+def orderOf : SigAlg → Nat
+  | .ed25519 => Ed25519.L
+  | .p256 => Ec.p256.n
+  | .p384 => Ec.p384.n
+  | .k256 => Ec.k256.n
+
+/-- the real key material of a key -/
+structure RKey where
+  sk : Option Bytes := none
+  /-- Ed25519: the 32 bytes; ECDSA: a SEC 1 encoding -/
+  pk : Option Bytes := none
+  /-- ECDSA: the decoded public point (decoded once per key) -/
+  pt : Ecdsa.APoint := none
+
+def specVerify (a : SigAlg) (k : RKey) (msg sig : Bytes) : Bool :=
+  match suiteOf a, k.pk with
+  | none, some pk => Ed25519.verifyStrict pk msg sig
+  | some S, some _ => match k.pt with
+    | some q => Ecdsa.verifyPoint S (some q) msg sig
+    | none => false
+  | _, none => false
+
 structure MKey where
   key : Key
   fam : Nat
+  real : RKey
 
 def famSecret (f : Nat) : Bytes := utf8 ("fam-" ++ toString f)
 
@@ -30,9 +92,31 @@ def baseKey (alg : KeyAlg) (fam : Nat) (hasSecret : Bool) : Key :=
     if hasSecret then k else (Key.ofPublic Toy.schemes a alg k.pub).getD k.toPublic
   | none => { alg := alg, secret := if hasSecret then some (famSecret fam) else none, pub := [] }
 
-def buildKeys (specs : List Json) : List (Option MKey) :=
+def hexOpt (j : Json) (k : String) : Option Bytes := (strOpt j k).bind Bytes.ofHex
+
+def withPoint (a : SigAlg) (r : RKey) : RKey :=
+  match suiteOf a, r.pk with
+  | some S, some pk => { r with pt := Ecdsa.decodePublic S pk }
+  | _, _ => r
+
+/-- real key material of a base key: the case's own bytes where it has them, else what the executor observed -/
+def realOf (a : SigAlg) (src : String) (spec km : Json) (hasSecret : Bool) : RKey :=
+  let r : RKey :=
+    if src == "secret" then
+      let sk := hex! spec "data"
+      { sk := some sk, pk := specPub a sk }
+    else if src == "public" then { pk := hexOpt spec "data" }
+    else if hasSecret then
+      match hexOpt km "sk" with
+      | some sk => { sk := some sk, pk := specPub a sk }
+      | none => { pk := hexOpt km "pk" }
+    else { pk := hexOpt km "pk" }
+  withPoint a r
+
+def buildKeys (specs : List Json) (kms : List Json) : List (Option MKey) :=
   let step := fun (acc : List (Option MKey)) (spec : Json) =>
     let idx := acc.length
+    let km := kms.getD idx .null
     let src := str! spec "src"
     let k : Option MKey :=
       if src == "public_of" || src == "jwk_public_of" || src == "jwk_secret_of" || src == "secret_of" then
@@ -40,7 +124,7 @@ def buildKeys (specs : List Json) : List (Option MKey) :=
         | some b =>
           if src == "public_of" || src == "jwk_public_of" then
             match b.key.alg.sigAlg? with
-            | some a => (Key.ofPublic Toy.schemes a b.key.alg b.key.pub).map fun k => { key := k, fam := b.fam }
+            | some a => (Key.ofPublic Toy.schemes a b.key.alg b.key.pub).map fun k => { key := k, fam := b.fam, real := { b.real with sk := none } }
             | none => none
           else if b.key.secret.isSome then some b else none
         | none => none
@@ -49,7 +133,10 @@ def buildKeys (specs : List Json) : List (Option MKey) :=
         | some alg =>
           let fam := (natOpt spec "fam").getD idx
           let hasSecret := if src == "public" then false else if src == "jwk" then bool! spec "secret" else true
-          some { key := baseKey alg fam hasSecret, fam := fam }
+          let real := match alg.sigAlg? with
+            | some a => realOf a src spec km hasSecret
+            | none => {}
+          some { key := baseKey alg fam hasSecret, fam := fam, real := real }
         | none => none
     acc ++ [k]
   specs.foldl step []
@@ -61,16 +148,27 @@ def jres {α} (f : α → Json) : Res ErrKind α → Json
   | .err e => jerr e.name
   | .panic _ => jerr "Panic"
 
+/-! ### mutations of a signature (byte for byte what the executor does) -/
+
 def flipBit (s : Bytes) (bit : Nat) : Bytes :=
   s.mapIdx fun i b => if i = bit / 8 then b ^^^ (UInt8.ofNat (1 <<< (bit % 8))) else b
 
-def sPlusN (s : Bytes) : Bytes :=
-  s.take (s.length / 2) ++ (s.drop (s.length / 2)).map fun b => b + 1
+/-- the scalar half as a number (Ed25519: little-endian S; ECDSA: big-endian s) and back -/
+def sOf (a : SigAlg) (sig : Bytes) : Nat :=
+  let h := sig.drop (sig.length / 2)
+  if a = .ed25519 then Ed25519.leNat h else Ecdsa.os2ip h
 
-def mutate (m : Json) (s : Bytes) : Bytes :=
+def withS (a : SigAlg) (sig : Bytes) (s : Nat) : Bytes :=
+  let half := sig.length / 2
+  sig.take half ++ (if a = .ed25519 then Ed25519.natLE half s else Ecdsa.i2osp half s)
+
+def mutate (a : SigAlg) (m : Json) (s : Bytes) : Bytes :=
+  let arith := s.length % 2 = 0 ∧ s ≠ [] ∧ s.length = a.native.signatureLength
+  let n := orderOf a
   match m with
-  | .str "neg_s" => Toy.negS s
-  | .str "s_plus_n" => sPlusN s
+  | .str "neg_s" => if arith ∧ sOf a s ≤ n then withS a s (n - sOf a s) else s
+  | .str "s_plus_n" => if arith then withS a s (if sOf a s + n < 256 ^ (s.length / 2) then sOf a s + n else n) else s
+  | .str _ => s
   | .null => s
   | _ =>
     match natOpt m "flip", natOpt m "trunc", strOpt m "extend" with
@@ -79,34 +177,83 @@ def mutate (m : Json) (s : Bytes) : Bytes :=
     | _, _, some h => s ++ (Bytes.ofHex h).getD []
     | _, _, _ => s
 
-def runOp (keys : List (Option MKey)) (op : Json) : Json :=
-  match (keys[nat! op "key"]?).join with
-  | none => jerr "nokey"
+/-! ### operations -/
+
+/-- signatures already computed: (signature width, secret bytes, message, rfc) ↦ value -/
+abbrev Cache := Std.HashMap (Nat × Bytes × Bytes × Bool) (Option Bytes)
+
+def algTag : SigAlg → Nat
+  | .ed25519 => 0 | .p256 => 1 | .p384 => 2 | .k256 => 3
+
+def specSignC (c : Cache) (a : SigAlg) (rfc : Bool) (sk msg : Bytes) : Option Bytes × Cache :=
+  match c[(algTag a, sk, msg, rfc)]? with
+  | some v => (v, c)
+  | none =>
+    let v := specSign a rfc sk msg
+    (v, c.insert (algTag a, sk, msg, rfc) v)
+
+def runOp (keys : List (Option MKey)) (wantRfc : Bool) (c : Cache) (op : Json) : Json × Cache :=
+  let ki := nat! op "key"
+  match (keys[ki]?).join with
+  | none => (jerr "nokey", c)
   | some k =>
     let msg := hex! op "msg"
     if str! op "op" == "sign" then
-      jres (fun s => Json.mkObj [("ok", jnat s.length)]) (signMessage Toy.schemes k.key msg (tOf op))
+      match signMessage Toy.schemes k.key msg (tOf op) with
+      | .err e => (jerr e.name, c)
+      | .panic _ => (jerr "Panic", c)
+      | .ok toy =>
+        match k.key.alg.sigAlg?, k.real.sk with
+        | some a, some sk =>
+          let (sig, c) := specSignC c a false sk msg
+          let base := [("ok", jnat ((sig.map List.length).getD toy.length)),
+                       ("sig", (sig.map jhex).getD .null), ("pub", ((specPub a sk).map jhex).getD .null)]
+          if wantRfc then
+            let (rfc, c) := specSignC c a true sk msg
+            (Json.mkObj (base ++ [("rfc", (rfc.map jhex).getD .null)]), c)
+          else (Json.mkObj base, c)
+        | _, _ => (Json.mkObj [("ok", jnat toy.length), ("sig", .null), ("pub", .null)], c)
     else
       let sj := (getD? op "sig").getD .null
-      let sig : Except Json Bytes :=
+      let (sig, c) : Except Json Bytes × Cache :=
         match strOpt sj "raw" with
-        | some h => .ok ((Bytes.ofHex h).getD [])
+        | some h => (.ok ((Bytes.ofHex h).getD []), c)
         | none =>
           match (keys[nat! sj "by"]?).join with
-          | none => .error (jerr "nokey")
+          | none => (.error (jerr "nokey"), c)
           | some sk =>
             match signMessage Toy.schemes sk.key (hex! sj "msg") (tOf sj) with
-            | .ok s => .ok (mutate ((sj.getObjVal? "mut").toOption.getD .null) s)
-            | .err e => .error (Json.mkObj [("sigerr", .str e.name)])
-            | .panic _ => .error (Json.mkObj [("sigerr", .str "Panic")])
+            | .ok _ =>
+              match sk.key.alg.sigAlg?, sk.real.sk with
+              | some a, some skb =>
+                let (s, c) := specSignC c a false skb (hex! sj "msg")
+                match s with
+                | some s => (.ok (mutate a ((sj.getObjVal? "mut").toOption.getD .null) s), c)
+                | none => (.error (Json.mkObj [("sigerr", .str "NoSpecValue")]), c)
+              | _, _ => (.error (Json.mkObj [("sigerr", .str "NoSecretBytes")]), c)
+            | .err e => (.error (Json.mkObj [("sigerr", .str e.name)]), c)
+            | .panic _ => (.error (Json.mkObj [("sigerr", .str "Panic")]), c)
       match sig with
-      | .error j => j
-      | .ok s => jres (fun b => Json.bool b) (verifySignature Toy.schemes k.key msg s (tOf op))
+      | .error j => (j, c)
+      | .ok s =>
+        -- dispatch by the model; where it reaches the scheme's verifier (exact length), the verdict is the specification's
+        match verifySignature Toy.schemes k.key msg s (tOf op), k.key.alg.sigAlg? with
+        | .ok _, some a => (Json.bool (s.length = a.native.signatureLength && specVerify a k.real msg s), c)
+        | r, _ => (jres (fun b => Json.bool b) r, c)
+
+def selfTest : Json :=
+  Json.mkObj [("sha2", .bool Sha2.selfTest), ("hmac", .bool Hmac.selfTest), ("ed25519", .bool Ed25519.selfTest), ("ecdsa", .bool Ecdsa.selfTest)]
 
 def runCase (j : Json) : Json :=
-  let keys := buildKeys (arr! j "keys")
+  if str! j "kind" == "c13:selftest" then selfTest else
+  let keys := buildKeys (arr! j "keys") (arr! j "km")
   match keys.findIdx? Option.isNone with
   | some i => Json.mkObj [("keyerr", jnat i)]
-  | none => Json.arr ((arr! j "ops").map (runOp keys)).toArray
+  | none =>
+    let wantRfc := bool! j "spec"
+    let (outs, _) := (arr! j "ops").foldl (fun (acc : Array Json × Cache) op =>
+      let (o, c) := runOp keys wantRfc acc.2 op
+      (acc.1.push o, c)) (#[], {})
+    Json.arr outs
 
 end Driver.C13
